@@ -22,31 +22,31 @@ Definition base_cfg : cfg := {|
   c_pat := fun _ _ _ => false;
   c_skip_list := []; c_re := None; c_glob := None; c_gitignore := false; c_ignore_subdirs := false;
   c_paths := []; c_symlinks := false; c_max_inodes := 0; c_max_size := 0; c_fatal := false;
-  c_cancel := NoCancel |}.
+  c_abs := None; c_cancel := NoCancel |}.
 
 Definition with_re_glob (c : cfg) (re gl : option (path -> bool)) : cfg := {|
   c_exts := c_exts c; c_required := c_required c; c_statreq := c_statreq c; c_extract := c_extract c; c_pat := c_pat c;
   c_skip_list := c_skip_list c; c_re := re; c_glob := gl; c_gitignore := c_gitignore c;
   c_ignore_subdirs := c_ignore_subdirs c; c_paths := c_paths c; c_symlinks := c_symlinks c;
-  c_max_inodes := c_max_inodes c; c_max_size := c_max_size c; c_fatal := c_fatal c; c_cancel := c_cancel c |}.
+  c_max_inodes := c_max_inodes c; c_max_size := c_max_size c; c_fatal := c_fatal c; c_abs := c_abs c; c_cancel := c_cancel c |}.
 
 Definition with_gitignore (c : cfg) (pat : N -> path -> bool -> bool) : cfg := {|
   c_exts := c_exts c; c_required := c_required c; c_statreq := c_statreq c; c_extract := c_extract c; c_pat := pat;
   c_skip_list := c_skip_list c; c_re := c_re c; c_glob := c_glob c; c_gitignore := true;
   c_ignore_subdirs := c_ignore_subdirs c; c_paths := c_paths c; c_symlinks := c_symlinks c;
-  c_max_inodes := c_max_inodes c; c_max_size := c_max_size c; c_fatal := c_fatal c; c_cancel := c_cancel c |}.
+  c_max_inodes := c_max_inodes c; c_max_size := c_max_size c; c_fatal := c_fatal c; c_abs := c_abs c; c_cancel := c_cancel c |}.
 
 Definition with_paths (c : cfg) (ps : list path) (isd : bool) : cfg := {|
   c_exts := c_exts c; c_required := c_required c; c_statreq := c_statreq c; c_extract := c_extract c; c_pat := c_pat c;
   c_skip_list := c_skip_list c; c_re := c_re c; c_glob := c_glob c; c_gitignore := c_gitignore c;
   c_ignore_subdirs := isd; c_paths := ps; c_symlinks := c_symlinks c;
-  c_max_inodes := c_max_inodes c; c_max_size := c_max_size c; c_fatal := c_fatal c; c_cancel := c_cancel c |}.
+  c_max_inodes := c_max_inodes c; c_max_size := c_max_size c; c_fatal := c_fatal c; c_abs := c_abs c; c_cancel := c_cancel c |}.
 
 Definition with_limits (c : cfg) (maxi maxs : Z) (fatal : bool) (cn : cancel) : cfg := {|
   c_exts := c_exts c; c_required := c_required c; c_statreq := c_statreq c; c_extract := c_extract c; c_pat := c_pat c;
   c_skip_list := c_skip_list c; c_re := c_re c; c_glob := c_glob c; c_gitignore := c_gitignore c;
   c_ignore_subdirs := c_ignore_subdirs c; c_paths := c_paths c; c_symlinks := c_symlinks c;
-  c_max_inodes := maxi; c_max_size := maxs; c_fatal := fatal; c_cancel := cn |}.
+  c_max_inodes := maxi; c_max_size := maxs; c_fatal := fatal; c_abs := c_abs c; c_cancel := cn |}.
 
 (* ./a/z, ./b/z ; regex matches "a", glob matches "b" *)
 Definition t_two_dirs : node := Dc DOT [Dc nA [Fc nZ Reg 1 0]; Dc nB [Fc nZ Reg 1 0]].
